@@ -200,7 +200,9 @@ class Roles:
     def seeding(self) -> FuncInfo:
         return self.memo('seeding', lambda: self._unique(
             'seeding routine',
-            self._outside_container(self.callers_of_any(self.sd_method('InsertFirstDataItem'), self.global_reach)),
+            sorted({self.lift(f) for f in self._outside_container(
+                self.callers_of_any(self.sd_method('InsertFirstDataItem'), self.global_reach))},
+                key=lambda f: f.qualname),
             'caller of InsertFirstDataItem on the global path'))
 
     def best_requesters(self) -> List[FuncInfo]:
@@ -230,9 +232,10 @@ class Roles:
     @property
     def renewal(self) -> FuncInfo:
         def build():
-            cs = [c for c in self.callers_of_any(self.sd_method('InsertDataItem'), self.global_reach)
-                  if c is not self.seeding and c.cls is not None and c.cls.name != 'SearchData'
+            cs = [self.lift(c) for c in self.callers_of_any(self.sd_method('InsertDataItem'), self.global_reach)
+                  if c.cls is not None and c.cls.name != 'SearchData'
                   and not c.cls.is_subclass_of(self.ix.cls('SearchData'))]
+            cs = [c for c in cs if c is not self.seeding]
             if len(set(cs)) > 1:
                 # the renewal routine is the caller that also refreshes interval lengths; any other caller is
                 # reported by the completeness rule (R06.6) instead of hiding behind an ambiguity
